@@ -545,6 +545,38 @@ def check(ctx, rep):
 
     # ------------------------------------------------------------------ R20e
     body_writer_obligations(ctx, rep, "R20e")
+    # ------------------------------------------------------------------ R20f
+    rep.rule("R20f", "no context manager of the server swallows what is raised inside its block: __exit__ returns nothing (or False) on every path, "
+             "generator-based managers re-raise - a failed write inside such a block would otherwise vanish unlogged", floor=0)
+    n_cm = 0
+    for f_ in prog.all_functions():
+        if not f_.module.name.startswith("pygopherd") or ".tests" in f_.module.name or f_.module.name.endswith("testutil"):
+            continue
+        if f_.name in ("__exit__", "__aexit__") and f_.cls is not None:
+            n_cm += 1
+            bad = []
+            for p_ in Walker(prog, ctx.resolver, fork_returns=True).run(f_, f_.cls):
+                if p_.kind == "return" and p_.value is not None:
+                    t_ = truth(p_.value)
+                    rv = [e for e in p_.events if e.kind == "return"]
+                    if t_ is not False and not (rv and (rv[-1].node.value is None)):
+                        bad.append(norm(rv[-1].node)[:50] if rv else "a value")
+            rep.add("R20f", f"{f_.qualname}: lets exceptions through", not bad, ctx.where(f_),
+                    "" if not bad else f"`{bad[0]}` can be true: whatever was raised inside the with block (a write to a client that has gone away) is then "
+                    "swallowed - no error reply, no log line", key=f"R20f|{f_.qualname}")
+        if any((dotted(d_) or "").split(".")[-1] in ("contextmanager", "asynccontextmanager") for d_ in f_.node.decorator_list):
+            n_cm += 1
+            swallow = []
+            for tr in [x for x in ast.walk(f_.node) if isinstance(x, ast.Try)]:
+                if any(isinstance(y, (ast.Yield, ast.YieldFrom)) for b_ in tr.body for y in ast.walk(b_)):
+                    for h in tr.handlers:
+                        if not any(isinstance(y, ast.Raise) for y in ast.walk(h)):
+                            swallow.append(norm(h.type)[:40] if h.type is not None else "everything")
+            rep.add("R20f", f"{f_.qualname}: lets exceptions through", not swallow, ctx.where(f_),
+                    "" if not swallow else f"the manager catches {swallow[0]} around its yield without re-raising: what fails inside the with block vanishes",
+                    key=f"R20f|{f_.qualname}")
+    if not n_cm:
+        rep.ok("R20f", "the server defines no context manager of its own", "pygopherd", "", key="R20f|none", nontrivial=False)
 
 
 class _PathObj:
